@@ -369,7 +369,7 @@ func checkC19(c *Ctx) {
 					if call, ok := second.rng.X.(*ssa.Call); ok && calleeFn(call.Common()) == lf {
 						eachInstr(lf, func(_ *ssa.BasicBlock, _ int, x ssa.Instruction) {
 							if ret, ok := x.(*ssa.Return); ok {
-								for _, r := range ret.Results {
+								for _, r := range returnedValues(ret) {
 									if r == mu.Map {
 										okLatch = true
 									}
